@@ -9,13 +9,18 @@ Proved here:
   has step zero) is rejected by `_slice_inner`, for every width (from C03).
 * `array_width_rule` — `ArrayFlattener` accepts a connection to an array port exactly when its width is
   the port width (broadcast) or `n` times it, and then hands element `k` bits `[k·w, (k+1)·w)`.
-The remaining fault classes (missing / extra connections, bad references and members, width mismatches
+* `portrefs_rejects_iff` — over the model of `ResolvePortRefs` (PortRefs.lean, whole-signal connections): the pass raises
+  **exactly** when the module has a port that is neither connected nor referenced, a no-connected port that shares its
+  group with another port, or two different declared signals in one group — and never fails to answer (`group_total`:
+  the depth-first group discovery terminates within its fuel).
+The remaining fault classes (extra connections, bad references and members, width mismatches
 behind bundles and references, ownership, shared no-connects, cycles, module names) are decided by the
 correspondence: single-fault mutants of valid designs at every site, with the declarative `Sem.src`
 (Design.lean) as the judge of ill-formedness.
 -/
 import Hdl21Model.Props.C07
 import Hdl21Model.Props.C03
+import Hdl21Model.Lemmas.PortRefs
 namespace Hdl21.Props.C02
 open Hdl21 Hdl21.Runner
 
@@ -60,5 +65,27 @@ theorem array_width_rule (w n cw k : Nat) :
     rw [if_neg h1, if_pos h2]
     refine ⟨rfl, ?_⟩
     rw [h2]; exact Nat.mul_le_mul_right w hk
+
+/-! ## port references and no-connects: what is refused -/
+section PortRefs
+open Hdl21.PortRefs
+
+/-- `ResolvePortRefs` refuses a module (leaves some port unresolved: raises) exactly when it is ill-formed. -/
+theorem portrefs_rejects_iff (m : Mod) (wf : WF m) :
+    (∃ p ∈ m.ports, resolvePort m p = none) ↔ IllFormed m :=
+  resolve_none_iff wf (fun p hp => group_total wf p hp)
+
+/-- … and otherwise resolves every port. -/
+theorem portrefs_accepts_wellformed (m : Mod) (wf : WF m) (h : ¬ IllFormed m) :
+    ∀ p ∈ m.ports, (resolvePort m p).isSome := by
+  intro p hp
+  cases hr : resolvePort m p with
+  | some v => rfl
+  | none => exact absurd ((portrefs_rejects_iff m wf).mp ⟨p, hp, hr⟩) h
+
+/-! Non-vacuity: a no-connected port that another port refers to; a port nobody connects or refers to. -/
+example : resolvePort ⟨[(0, 0), (1, 0)], [((0, 0), .nc 0), ((1, 0), .pref (0, 0))], 0⟩ (0, 0) = none := by decide +kernel
+example : resolvePort ⟨[(0, 0), (1, 0)], [((1, 0), .sig 0)], 1⟩ (0, 0) = none := by decide +kernel
+end PortRefs
 
 end Hdl21.Props.C02
